@@ -45,12 +45,14 @@ RULE = ("part A case = (component history, parent history, pin assignment); non-
 ASSUMPTIONS = [
     "component build numbers increase along the component history; one standard build tag per build",
     "the pinned component version names an existing component build and never decreases along a parent edge",
-    "commit times of both repositories within one day (inside the component cut-off window)",
+    "commit times of both repositories within one day, or (groups with time levels) spread over days with every "
+    "parent commit newer than the oldest report-related component build minus one day (the component cut-off window)",
     "one component per parent in part A; dependency graphs in part B use stub repositories",
     "a component build that lists no commit of its own (merge of two built side lines) may or may not be recorded; "
     "if it is, only at a first parent build that ships it",
 ]
-REQUIRED_FEATURES = ["A:component-merge", "A:side-line-build-shipped-after-main-line-build",
+REQUIRED_FEATURES = ["A:commit-times-spread-over-days", "A:oldest-report-build-in-later-sorted-component-branch",
+                     "A:shipping-parent-build-days-before-first-branch-report-builds", "A:component-merge", "A:side-line-build-shipped-after-main-line-build",
                      "A:side-line-shares-ancestor-build-with-shipped-main-line",
                      "A:component-commit-built-twice", "A:pin-names-second-build-of-a-commit",
                      "A:second-build-number-ships-first", "A:repeated-request", "A:other-text-first",
@@ -108,6 +110,24 @@ def _twice_built_comps(n_max, d_max):
     return out
 
 
+def _small_fork_comps():
+    """Two component release branches on at most 3 commits: 1..a on release/1.0, a+1..a+b on release/2.0 forking at f."""
+    out = []
+    for a, b in ((1, 1), (1, 2), (2, 1)):
+        for f in range(1, a + 1):
+            n = a + b
+            parents = [[]] + [[i] for i in range(1, a)] + [[f]] + [[i] for i in range(a + 1, n)]
+            major = {str(i): (1 if i <= a else 2) for i in range(1, n + 1)}
+            ids = list(range(1, n + 1))
+            for tags in gm.subsets(ids):
+                if not tags:
+                    continue
+                for match in gm.subsets(ids):
+                    out.append({"parents": parents, "heads": [["release/1.0", a], ["release/2.0", n]],
+                                "tags": tags, "match": match, "major": major})
+    return out
+
+
 def _fork_comps():
     out = []
     for a in (2, 3):                   # commits 1..a on release/1.0
@@ -158,6 +178,7 @@ _A_GROUPS = {
         ("merge3/p2", ("merge", 3), (1, 2), (PB1, PB2), True, 1, 32, False, "single"),
         ("twice3/p2", ("twice", 3), (1, 2), (PB1, PB2), True, 1, 24, False, "single"),
         ("merge4full/p2b1", ("merge-full", 4), (1, 2), (PB1,), True, 0, 24, False, "single"),
+        ("fork3days/p2b1", ("small-fork", 3), (1, 2), (PB1,), True, 0, 24, False, "levels"),
     ],
     "thorough": [
         ("lin4/p2", ("linear", 4), (1, 2), (PB1, PB2), True, 2, 32, True, "repeat"),
@@ -171,6 +192,9 @@ _A_GROUPS = {
         ("merge4/p2", ("merge", 4), (1, 2), (PB1, PB2), True, 1, 96, False, "single"),
         ("twice3/p2", ("twice-all", 3), (1, 2), (PB1, PB2), True, 2, 16, False, "single"),
         ("twice3/p3b1", ("twice-all", 3), (3,), (PB1,), True, 1, 64, False, "single"),
+        ("fork3days/p2", ("small-fork", 3), (1, 2), (PB1, PB2), True, 1, 32, False, "levels"),
+        ("fork3days/p3b1", ("small-fork", 3), (3,), (PB1,), False, 0, 48, False, "levels"),
+        ("lin3days/p2", ("linear", 3), (1, 2), (PB1, PB2), True, 1, 16, False, "levels"),
     ],
 }
 _COMPS = {}
@@ -185,6 +209,8 @@ def _comps(fam):
             _COMPS[fam] = _linear_comps(n, n_min=4)
         elif kind == "linear-full":
             _COMPS[fam] = _linear_comps(n, n_min=n, full_only=True)
+        elif kind == "small-fork":
+            _COMPS[fam] = _small_fork_comps()
         elif kind == "merge":
             _COMPS[fam] = _merge_comps(n)
         elif kind == "merge-full":
@@ -211,7 +237,10 @@ def bounds(tier):
         "part_A_groups": [{"name": g[0], "component": f"{g[1][0]} up to {g[1][1]} commits", "parent_commits": list(g[2]),
                            "parent_branches": [list(b) for b in g[3]], "parent_merges": g[4],
                            "parent_matching_commits_at_most": g[5], "shards": g[6], "printed_report_compared": g[7],
-                           "request_histories": _HISTORIES[g[8]]}
+                           "request_histories": _HISTORIES[g[8]],
+                           "commit_times": ("component commits 2 days apart in both orders, parent commits 2 days apart "
+                                            "starting at every level from half a day before the oldest report-related "
+                                            "component build") if g[8] == "levels" else "all within one day"}
                           for g in _A_GROUPS[tier]],
         "pins": "every assignment naming an existing component build and never decreasing along a parent edge",
         "part_B_groups": [{"ids": g[0], "self_loops": g[1], "supply_orders": g[2], "absent_dependencies": g[3],
@@ -231,7 +260,7 @@ def shards(tier):
 # ------------------------------------------------------------------ part A: one scenario
 T1 = gm.SEARCH_TEXT
 T2 = "BUG-8"          # contained in the messages of some commits that do not match T1
-_HISTORIES = {"single": [[T1]], "repeat": [[T1], [T1, T1], [T2, T1], [T1, T2]]}
+_HISTORIES = {"single": [[T1]], "repeat": [[T1], [T1, T1], [T2, T1], [T1, T2]], "levels": [[T1]]}
 
 
 def _judge_report(comp, par, report, compare_printed, info):
@@ -411,6 +440,21 @@ def _features_A(case, info):
         f.add("A:repeated-request")
         if texts[0] != T1:
             f.add("A:other-text-first")
+    if comp.get("levels"):
+        f.add("A:commit-times-spread-over-days")
+        lv, plv = comp["levels"], par["levels"]
+        listing = info.get("listing", set())
+        per_branch = {}
+        for b, c in listing:
+            per_branch.setdefault(b, []).append(lv[c - 1])
+        order = [b for b in gm.sorted_branches(per_branch)]
+        if len(order) >= 2 and min(per_branch[order[0]]) > min(min(per_branch[b]) for b in order[1:]):
+            f.add("A:oldest-report-build-in-later-sorted-component-branch")
+            first_min = min(per_branch[order[0]])
+            if any(plv[pc - 1] <= first_min - 2 for items in req.values() for _pb, _l, pc in items):
+                f.add("A:shipping-parent-build-days-before-first-branch-report-builds")
+        if any(plv[pc - 1] < lv[key[1] - 1] for key, items in req.items() for _pb, _l, pc in items):
+            f.add("A:parent-build-older-than-component-build-it-ships")
     if len(par["heads"]) == 2:
         f.add("A:parent-two-branches")
     if any(len(p) == 2 for p in par["parents"]):
@@ -494,9 +538,21 @@ def _run_A(shard, tier, acc):
         for names in branch_sets:
             shapes += [(n, p, h) for p, h in _parent_shapes(n, names, merges)]
     idx = -1
-    for comp in comps:
-        rc = gm.reach_masks(comp["parents"])
-        versions = gm.c07_versions(comp)
+    for comp0 in comps:
+        rc = gm.reach_masks(comp0["parents"])
+        versions = gm.c07_versions(comp0)
+        nc = len(comp0["parents"])
+        if hist == "levels":
+            # component commit times 2 days apart, in history order and against it; the parent's commits follow each
+            # other 2 days apart, starting at every level from just (half a day) before the oldest report-related
+            # component build - the earliest time the property's quantifier allows - to the newest component commit
+            ref_builds, _e = gm.c07_component_builds(comp0)
+            timed = []
+            for lv in (list(range(nc)), list(range(nc - 1, -1, -1))):
+                kmin = min((lv[c - 1] for _b, c in ref_builds), default=0)
+                timed.append((dict(comp0, levels=lv), list(range(kmin - 1, nc))))
+        else:
+            timed = [(comp0, [None])]
         for n, parents, heads in shapes:
             idx += 1
             if idx % k != j:
@@ -505,33 +561,38 @@ def _run_A(shard, tier, acc):
                 return
             ids = list(range(1, n + 1))
             pin_sets = list(gm.enumerate_pins(parents, versions, rc))
-            for tags in gm.subsets(ids):
-                for match in gm.subsets(ids):
-                    if len(match) > match_max:
-                        continue
-                    for pins in pin_sets:
-                        for texts in _HISTORIES[hist]:
-                            case = {"part": "A", "comp": comp,
-                                    "par": {"parents": parents, "heads": heads, "tags": tags, "match": match, "pins": pins}}
-                            if texts != [T1]:
-                                case["texts"] = texts
-                            problems, info = check_scenario(case, acc, printed)
-                            feats, nontriv = _features_A(case, info)
-                            if info.get("dups"):
-                                acc.note_sum("A_duplicate_included_at_entries", info["dups"])
-                            if info.get("opt_expected"):
-                                acc.feat("A:cross-branch-containment(accepted either way)")
-                                acc.note_sum("A_cross_branch_entries_possible", info["opt_expected"])
-                                acc.note_sum("A_cross_branch_entries_recorded", info.get("opt_observed", 0))
-                            nship = sum(len(v) for v in info.get("req", {}).values())
-                            acc.case(nontrivial=nontriv, features=tuple(feats),
-                                     outcome=f"A builds={len(info.get('req', {}))} ships={nship}" + (" VIOLATION" if problems else ""))
-                            if nontriv and len(match) == 0 and len(tags) == 1:
-                                acc.sample(case)
-                            if problems:
-                                _report(acc, case, problems)
-                                if _too_many_hangs(acc, problems):
-                                    return
+            for comp, starts in timed:
+              for start in starts:
+                for tags in gm.subsets(ids):
+                    for match in gm.subsets(ids):
+                        if len(match) > match_max:
+                            continue
+                        for pins in pin_sets:
+                            for texts in _HISTORIES[hist]:
+                                par = {"parents": parents, "heads": heads, "tags": tags, "match": match, "pins": pins}
+                                if start is not None:
+                                    par["levels"] = [start + i for i in range(n)]
+                                case = {"part": "A", "comp": comp, "par": par}
+                                if texts != [T1]:
+                                    case["texts"] = texts
+                                problems, info = check_scenario(case, acc, printed)
+                                feats, nontriv = _features_A(case, info)
+                                if info.get("dups"):
+                                    acc.note_sum("A_duplicate_included_at_entries", info["dups"])
+                                if info.get("opt_expected"):
+                                    acc.feat("A:cross-branch-containment(accepted either way)")
+                                    acc.note_sum("A_cross_branch_entries_possible", info["opt_expected"])
+                                    acc.note_sum("A_cross_branch_entries_recorded", info.get("opt_observed", 0))
+                                nship = sum(len(v) for v in info.get("req", {}).values())
+                                acc.case(nontrivial=nontriv, features=tuple(feats),
+                                         outcome=f"A builds={len(info.get('req', {}))} ships={nship}"
+                                                 + (" VIOLATION" if problems else ""))
+                                if nontriv and len(match) == 0 and len(tags) == 1:
+                                    acc.sample(case)
+                                if problems:
+                                    _report(acc, case, problems)
+                                    if _too_many_hangs(acc, problems):
+                                        return
 
 
 # ------------------------------------------------------------------ part B
